@@ -10,6 +10,8 @@ use calloop::{EventSource, Poll, PostAction, Readiness, Token, TokenFactory};
 pub struct Track {
     /// number of `process_events` calls started so far
     pub pe_seq: Cell<u32>,
+    /// number of `process_events` calls started while the source was registered
+    pub pe_reg_seq: Cell<u32>,
     pub in_pe: Cell<bool>,
     pub reg: Cell<u32>,
     pub rereg: Cell<u32>,
@@ -91,6 +93,9 @@ impl<S: EventSource> EventSource for Tracked<S> {
         F: FnMut(Self::Event, &mut Self::Metadata) -> Self::Ret,
     {
         bump(&self.track.pe_seq);
+        if self.track.registered.get() {
+            bump(&self.track.pe_reg_seq);
+        }
         self.track.in_pe.set(true);
         let r = self.inner.process_events(readiness, token, callback);
         self.track.in_pe.set(false);
